@@ -856,7 +856,7 @@ func (r *TypeClassSummonContext) lookupTypeClassInstance(ctx CurrentContext, req
 						TypeArgs: nil,
 					}}, "Bytes")
 
-			if bytesInstance.target.IsRight() {
+			if bytesInstance.target.IsRight() && !bytesInstance.isGivenAny() {
 				return bytesInstance
 			}
 			return r.namedLookup(ctx, req, "Slice")
